@@ -253,6 +253,21 @@ func enterInterfaceMethod(ctx antlr.ParserRuleContext, body parser.IInterfaceCom
 		Annotations: currentMethod.Annotations,
 		Position:    position,
 	}
+
+	// `static`, `public` ... in front of an interface method are modifiers of the interfaceBodyDeclaration,
+	// `default` (and what follows it) is an interfaceMethodModifier of the method itself
+	if bodyCtx, ok := ctx.GetParent().GetParent().(*parser.InterfaceBodyDeclarationContext); ok {
+		for _, modifier := range bodyCtx.AllModifier() {
+			if !strings.Contains(modifier.GetText(), "@") {
+				currentMethod.Modifiers = append(currentMethod.Modifiers, modifier.GetText())
+			}
+		}
+	}
+	for _, child := range ctx.GetChildren() {
+		if modifier, ok := child.(*parser.InterfaceMethodModifierContext); ok && modifier.Annotation() == nil {
+			currentMethod.Modifiers = append(currentMethod.Modifiers, modifier.GetText())
+		}
+	}
 }
 
 func (s *JavaIdentifierListener) ExitInterfaceMethodDeclaration(ctx *parser.InterfaceMethodDeclarationContext) {
